@@ -123,7 +123,7 @@ package render
 
 //@ func (render.rendererContext).Bindings
 //@ pure
-//@ props C12 C03 C01
+//@ props C12 C03 C04 C01
 //@ ensures def: result == c.ctx.bindings
 
 //@ func (render.rendererContext).Get
@@ -133,7 +133,7 @@ package render
 //@ ensures lookup: result == mapget(c.ctx.bindings, name)
 
 //@ func (render.rendererContext).Set
-//@ props C12 C03 C01
+//@ props C12 C03 C04 C01
 //@ panics nothing
 //@ assigns M$has$Str$Val, M$val$Str$Val
 //@ ensures bound: mapset(c.ctx.bindings, name, value)
@@ -183,7 +183,7 @@ package render
 
 // ---- a fresh variable map per render: the caller's map is only read (C03, C12) -------
 //@ func render.newNodeContext
-//@ props C03 C12 C02 C01
+//@ props C03 C04 C12 C02 C01
 //@ panics nothing
 //@ assigns alloc M$has$Str$Val, alloc M$val$Str$Val
 //@ ensures fresh: fresh(result.bindings) && result.config == c
@@ -453,7 +453,7 @@ package render
 //@ loop 1 invariant frames: @tree && sameold("S$Int") && sameold("M$has$Str$Int") && sameold("M$val$Str$Int") && sameold("M$has$Str$Fn") && sameold("M$val$Str$Fn") && wunchanged()
 
 //@ func (render.rendererContext).RenderFile
-//@ props C14 C12 C03 C01
+//@ props C14 C12 C03 C04 C01
 //@ panics nothing
 //@ requires tag: c.node != nil
 //@ ghost rerr Val = nil
